@@ -68,6 +68,8 @@ func main() {
 		r.Cases("crowd", r.Scale(1500, 30000), 1, func(c *vkit.Case) { crowd(c) })
 		r.Cases("parked-next", r.Scale(200, 3000), 1, func(c *vkit.Case) { parkedNext(c) })
 		r.Floor("parked-next rounds", r.Table("parked-next", "rounds"), 150)
+		r.Cases("exotic", r.Scale(300, 3000), 1, func(c *vkit.Case) { exotic(c) })
+		r.Floor("rounds with by-value contexts and sends after Close", r.Table("exotic", "rounds"), 200)
 		r.Floor("crowd rounds", r.Table("crowd", "rounds"), 1000)
 		r.Floor("histories in which a value sent before Close was received after Close was called", r.Table("schedule", "value acked before Close, received after Close call"), 20)
 		r.Floor("histories with a blocked Send released by receiver Close", r.Table("results", "Send closed-pipe"), 20)
@@ -731,4 +733,66 @@ func parkedNext(c *vkit.Case) {
 			}
 		}
 	}
+}
+
+// valCtx is a valid context.Context passed BY VALUE whose dynamic type is not comparable (it has
+// a slice field): comparing two such interface values with == panics at run time.
+type valCtx struct {
+	context.Context
+	tags []string
+}
+
+// exotic: (a) calls made with contexts of a non-comparable by-value type, several in a row with
+// values waiting in the buffer; (b) End / the close error sticks over repeated calls. (Sends issued
+// AFTER the sender's own Close are outside the statement — "with no Send in flight since" — and on
+// the pinned tree a late Send into a buffer with room is accepted about half of the time.)
+func exotic(c *vkit.Case) {
+	r := c.R
+	rnd := c.Rand
+	buffer := []int{1, 2, 8}[rnd.Intn(3)]
+	sender, recv := stream.Pipe[int64](buffer)
+	mk := func() context.Context { return valCtx{context.Background(), []string{"request-scoped"}} }
+	var cerr error
+	if rnd.Bool(0.5) {
+		cerr = errClose
+	}
+	n := rnd.Range(1, buffer)
+	p := vkit.Try(func() {
+		for i := 0; i < n; i++ {
+			if ok, err := sender.TrySend(mk(), int64(i+1)); !ok || err != nil {
+				c.Violation("exotic-send", fmt.Sprintf("exotic: TrySend into a pipe with room returned (%v, %v)", ok, err), nil)
+				return
+			}
+		}
+		for i := 0; i < n; i++ {
+			v, err := recv.Next(mk())
+			if err != nil || v != int64(i+1) {
+				c.Violation("exotic-next", fmt.Sprintf("exotic: Next no. %d with a by-value context returned (%d, %v), want (%d, nil)", i, v, err, i+1), nil)
+				return
+			}
+		}
+		sender.Close(cerr)
+		wantEnd := func(when string) bool {
+			v, err := recv.Next(mk())
+			if (cerr == nil && err != stream.End) || (cerr != nil && err != cerr) {
+				c.Violation("end-not-sticky", fmt.Sprintf("exotic: %s Next returned (%d, %v); the sender was closed with %v and nothing was in flight", when, v, err, cerr), nil)
+				return false
+			}
+			return true
+		}
+		if !wantEnd("after Close,") {
+			return
+		}
+		for k := 0; k < 3; k++ {
+			if !wantEnd("a later") {
+				return
+			}
+		}
+	})
+	if p != nil {
+		c.Violation("exotic-panic", fmt.Sprintf("exotic: a Pipe call given a valid by-value context (non-comparable dynamic type) panicked: %v", p.Value), map[string]any{"stack": p.Stack})
+	}
+	recv.Close()
+	r.Eval(1)
+	r.Count("exotic", "rounds", 1)
 }
